@@ -21,6 +21,13 @@ CHECKS = {
          "plus Hypothesis-drawn cases; both directions (accepts all well-formed, rejects every single-byte corruption).",
          "functional behaviour only, no timing; reference MACs are stdlib hmac/hashlib; SSLv3 pad==block size counted as either",
          "DESIGN.md §4 C12"),
+ "C20": ("exploration",
+         "exhaustive enumeration of (suite, version, role) with an IANA-table oracle, reference receiver and reference PRF; MITM rewriting for undefined pairs",
+         "Every suite id the library lists x every version is enumerated: defined pairs are negotiated between pinned endpoints and their records re-opened by a reference "
+         "receiver keyed with the REGISTERED cipher/key size/MAC/tag/PRF (any mismatch makes authentication fail), Finished is recomputed with the registered PRF, key-exchange "
+         "messages and certificate presence are checked on the wire, accessor names compared with the table; undefined pairs are attacked from both roles and must be refused.",
+         "IANA table typed in and cross-checked against openssl ciphers -stdname; 'defined in version' only where RFCs are explicit; premaster secrets not observable",
+         "DESIGN.md §4 C20"),
 }
 
 NOT_BUILT = "check not built yet in this round (design in DESIGN.md §4); not claimed"
